@@ -45,7 +45,11 @@ func (r Readers) Execute(pl engine.Plan, c *engine.RunCtx) *engine.Failure {
 	w := buildWorld(p.World)
 	defer w.arena.free()
 	snap0 := w.snapshot()
-	tab0 := tablesHash()
+	// C19.tables: a table may legitimately be FILLED on first use (e.g. behind a
+	// sync.Once); what must not happen is a change after that. The reference
+	// hash is therefore taken after the first complete phase (both phases run
+	// the same operations) and compared at the end of the run.
+	var tab0 uint64
 	pz := p.Poisons
 	if len(pz) < 3 {
 		pz = []uint64{0, 1<<63 - 1, 8}
@@ -91,6 +95,7 @@ func (r Readers) Execute(pl engine.Plan, c *engine.RunCtx) *engine.Failure {
 		if f := phase1(); f != nil {
 			return f
 		}
+		tab0 = tablesHash()
 	} else {
 		st.Inc("probe.C19.concurrent_phase_before_reference")
 	}
@@ -128,6 +133,7 @@ func (r Readers) Execute(pl engine.Plan, c *engine.RunCtx) *engine.Failure {
 	st.Add("probe.C19.switches_inside_a_library_call", int64(sch.SwitchesInCall))
 	st.Add("probe.C19.yield_points", int64(sch.Yields()))
 	if p.RefAfter {
+		tab0 = tablesHash()
 		if f := phase1(); f != nil {
 			return f
 		}
